@@ -1,5 +1,6 @@
 import WV.Proofs.C16_time
 import WV.Proofs.C16_legal
+import WV.Proofs.C16_flow
 
 /-!
 C16 — the Leader replaces a silent peer connection and never drops a responsive one.
@@ -19,7 +20,10 @@ open WV WV.Gen WV.C16 WV.Proofs.C16
     `_stop_using_connection`, `abandon_connection`, `connector_connection_made/lost`,
     `send_ping`, `handle_pong` and the two TrafficTimer outputs are the ones modelled
     (e.g. the `LEADER` guard around `got_connection`, the timer `cancel` on loss and on
-    abandon, `got_connection` *before* `outbound.use_connection`) -/
+    abandon, `got_connection` *before* `outbound.use_connection`), the Inbound pause/resume/stop bodies,
+    and `dataReceived` catching `Disconnect` only (any other exception of a record handler escapes to the
+    reactor, which drops the transport: records behind it in the segment are lost with the connection,
+    never stranded) -/
 theorem skeleton_agrees : skeletonOK = true := by decide +kernel
 
 /-! ## never drops a responsive connection -/
@@ -227,6 +231,23 @@ theorem monitoring_restarts {T : Nat} (hT : 1 ≤ T) {s s' : St} (hr : Reach (Cf
   obtain ⟨_, htm, hc, he⟩ := made_leader (reach_inv hT hr) hl h
   subst he
   exact ⟨htm, hc, rfl, rfl, rfl, rfl, rfl, rfl⟩
+
+/-- `read_paused_iff_consumer_paused`: inbound flow control cannot starve the monitor by accident.  In every
+    reachable state the connection in use is read-paused (its transport delivers nothing, so no Pong
+    can be seen) exactly while some subchannel consumer that paused has not resumed / stopped / closed
+    since — in particular a consumer that lets go *during an outage* (`Op.cresume` with no connection)
+    leaves the paused set then, and the next connection starts unpaused.  (The monitor itself is not
+    told about pauses: a consumer that stays paused for two intervals does get the connection dropped.) -/
+theorem read_paused_iff_consumer_paused {T : Nat} (hT : 1 ≤ T) {s : St} (hr : Reach (Cfg.real T) s) :
+    (s.conn ≠ none → s.readPaused = !s.inPaused.isEmpty) ∧ (s.conn = none → s.readPaused = false) :=
+  reach_flow hT hr
+
+/-- pause, loss while paused, resume during the outage, reconnect: the new connection is not paused
+    (and would be if the consumer had not resumed) -/
+example : (run (Cfg.real 4) init (connectedLeader ++ [.cpause 0, .lost, .cresume 0, .reconnecting, .made])).2 = none ∧
+    (run (Cfg.real 4) init (connectedLeader ++ [.cpause 0, .lost, .cresume 0, .reconnecting, .made])).1.readPaused = false ∧
+    (run (Cfg.real 4) init (connectedLeader ++ [.cpause 0, .lost, .reconnecting, .made])).1.readPaused = true ∧
+    (run (Cfg.real 4) init (connectedLeader ++ [.cpause 0])).1.readPaused = true := by decide
 
 /-- the monitor never raises: in a reachable state every operation the environment may
     legitimately perform (`legal`: a clock tick at any time; a connection offered while
